@@ -342,11 +342,73 @@ def templates(tier: str):
     return T
 
 
+# --------------------------------------------------------------------------------------------- P3 sweep-published keys
+_VARS = ("gain", "scale", "t")
+
+
+def _p3(ia: int, ib: int, ix: int, have_x: bool, delete_first: bool, x: int, y: int, z: int):
+    from vt.engine import assume
+
+    assume(0 <= ia < 3 and 0 <= ib < 3 and 0 <= ix < 3)
+    ca, cb, cx = (next(k for k in range(3) if v == k) for v in (ia, ib, ix))
+    return _p3_body(_VARS[ca], _VARS[cb], _VARS[cx], True if have_x else False, True if delete_first else False, x, y, z)
+
+
+def _p3_wrap(ia, ib, ix, have_x, delete_first, x, y, z):
+    return _p3_body(_VARS[ia], _VARS[ib], _VARS[ix], have_x, delete_first, x, y, z)
+
+
+def _p3_body(A, B, X, have_x, delete_first, x, y, z):
+    """two sweep nodes over the same element with (solver-picked) variable names A and B; a later node consumes X_values.
+    Soundness: accepted + required keys supplied => no flow failure; truthfulness: the keys each sweep node is reported to
+    create are the keys that appear when it runs."""
+    from vt import lib
+
+    lib.register()
+    sweep = lambda var, vals: {"processor": lib.OpAdd, "derive": {"parameter_sweep": {"variables": {var: {"values": list(vals)}}, "parameters": {"addend": var}, "collection": "IntColl"}}}
+    nodes = [{"processor": lib.SrcD, "parameters": {}}, sweep(A, [x, y]), {"processor": lib.OpSum, "parameters": {}}]
+    if delete_first:
+        nodes.append({"processor": "delete:%s_values" % A})
+    nodes += [sweep(B, [z]), {"processor": lib.OpSum, "parameters": {}}, {"processor": "rename:%s_values:picked" % X}]
+    insp, accepted = _inspect(nodes)
+    if not accepted:
+        return True
+    required = set(insp.required_context_keys)
+    ctx = {"%s_values" % X: [7]} if have_x else {}
+    if not required <= set(ctx):
+        return True
+    ctx = {k: v for k, v in ctx.items() if k in required}
+    from semantiva.data_types import NoDataType
+
+    tr = _RecTransport()
+    lib.reset_log()
+    try:
+        lib.run_pipeline(nodes, NoDataType(), ctx, transport=tr)
+    except Exception as e:  # noqa: BLE001
+        kind = _is_flow_failure(e)
+        if kind:
+            return Fail("C02.P3:accepted-config-fails:%s" % kind, "sweeps over %s then %s, consumer of %s_values%s: accepted with required keys %r supplied, run raised %s: %s at node %d" % (A, B, X, " (after delete:%s_values)" % A if delete_first else "", sorted(required), type(e).__name__, str(e)[:120], len(tr.snaps)))
+        return True
+    prev = dict(ctx)
+    for i, ni in enumerate(insp.nodes):
+        after = tr.snaps[i]
+        appeared = {k for k in after if k not in prev}
+        if not appeared <= set(ni.created_keys):
+            return Fail("C02.P3:unreported-created-key", "node %d (%s): keys %r appeared, reported created %r" % (i + 1, ni.processor_class, sorted(appeared), sorted(ni.created_keys)))
+        for k in ni.created_keys:
+            if k not in after:
+                return Fail("C02.P3:reported-created-key-absent", "node %d (%s): reported created key %r is not in the context after the node (sweeps over %s, %s)" % (i + 1, ni.processor_class, k, A, B))
+        prev = after
+    return True
+
+
 def obligations(tier: str) -> List[Ob]:
     big = tier == "thorough"
     R = C01._replay_simple
     tdesc = "Templates: all length-1, 24 curated interactions, ALL length-2 sequences over 19 node forms" + ("; thorough adds ALL length-3 sequences and a seeded draw of 400 length-4/5." if big else ".")
     return [
+        Ob("C02.P3", lambda _p: _p3, R(_p3_wrap), budget=600, per_path=60, bound="two sweep nodes of one element with variable names picked from {gain, scale, t} (symbolic indices), optional delete of the first sweep's key, a rename consuming X_values (X symbolic), X_values supplied or not (flag); sweep values symbolic",
+           targets=["semantiva/inspection/builder.py:build_pipeline_inspection", "semantiva/data_processors/parametric_sweep_factory.py:ParametricSweepFactory.create"], stubs=list(STUBS)),
         Ob("C02.U1", lambda _p: _u1, R(_u1), budget=60, bound="flags config?/created-earlier?/deleted?/default? and both values symbolic over int | None (a channel holding None still is that channel)", targets=["semantiva/pipeline/_param_resolution.py:inspect_origin", "semantiva/pipeline/_param_resolution.py:resolve_runtime_value"]),
         Ob("C02.U2", lambda _p: _u2, R(_u2), budget=240, bound="5 component kinds x symbolic 4-bit subset of candidate parameter names in the node config", targets=["semantiva/pipeline/_param_resolution.py:classify_unknown_config_params", "semantiva/inspection/builder.py:build_pipeline_inspection"]),
         Ob("C02.U3", lambda _p: _u3, R(_u3), budget=120, bound="5 produced types x 4 expected types (incl. subclass both ways, collection, NoDataType)", targets=["semantiva/inspection/validator.py:_is_compatible", "semantiva/pipeline/nodes/nodes.py:_DataNode._process"]),
